@@ -30,8 +30,8 @@ TEST_DIRS_THOROUGH = TEST_DIRS_QUICK + [
 
 # attempts per program in the quick tier (the plan is shuffled with the seed,
 # so a prefix is an unbiased sample of trans x node x option)
-QUICK_QUOTA = {"generic": 5000, "nemo": 5000, "lfric-multikernel-dm": 4000,
-               "lfric-builtin-nodm": 4000, "gocean-two-kernels": 4000}
+QUICK_QUOTA = {"generic": 4000, "nemo": 4000, "lfric-multikernel-dm": 3500,
+               "lfric-builtin-nodm": 3500, "gocean-two-kernels": 3500}
 CHUNK = 350
 
 
@@ -262,10 +262,19 @@ def _validate(out, source, dumps, tmp, cov, workers):
     else:
         verdicts = []
     tlc_bad = set()
+    first_bad = {}
+    for v in verdicts:
+        if v["v"] in CLAUSES:
+            first_bad[v["sid"]] = min(v["seq"], first_bad.get(v["sid"], v["seq"]))
     for v in verdicts:
         s = meta[v["sid"]]
         info = s["meta"].get(str(v["seq"]), {})
         if v["v"] not in CLAUSES:
+            # a discontinuity right after a rejected refusal is its consequence
+            # (the next attempt starts from the state the refusal should have
+            # left); anything else is a malformed trace
+            if v["v"] == "Discontinuity" and first_bad.get(v["sid"], v["seq"]) < v["seq"]:
+                continue
             raise core.MachineryError(
                 f"C26 trace ({source}) is not well-formed: {v} in {s['sid']}")
         tlc_bad.add((v["sid"], v["seq"]))
